@@ -54,6 +54,11 @@ add("C15", "exploration",
     "Trusted: internal/ref/c15_proc.go written from the manual; outcomes the manual leaves open (dynamic vs lexical resolution of free names in function bodies, evaluation-order effects, CLOSE of a closed cursor) are discarded and counted.",
     "property-based testing (rapid) against a reference interpreter of the procedural language", "DESIGN.md §3 C15")
 
+add("C18", "exploration",
+    "Totality: random bytes, token soup over csvq's keywords/operators/quotes/comments/placeholders, damaged valid statements and deep-nesting stress inputs in all four (prepared, ansi-quotes) modes must return statements or a SyntaxError positioned inside the input, never panic or hang. Round trip: generated SELECT queries are printed from the syntax tree, re-parsed, printed again (fixed point) and both texts are evaluated over fixture tables (same headers and values or same error class). A native fuzz target with the same oracles exists for the thorough tier.",
+    "Trusted: the generator's grammar coverage; evaluation is limited to deterministic side-effect-free functions; hang = watchdog hit that repeats on an isolated retry.",
+    "property-based testing + fuzzing (rapid, go test -fuzz) with a print/parse/evaluate round-trip oracle", "DESIGN.md §3 C18")
+
 NOT_YET = {}
 
 def main():
